@@ -243,18 +243,9 @@ def readOptionalWith {α : Type} (inner : Bytes → Option (α × Bytes)) (dflt 
     | _ => none
   | none => none
 
-/-- `ReadOptionalASN1Boolean`: unlike the INTEGER / OCTET STRING variants it does not require the
-    wrapper's contents to be fully consumed -/
+/-- `ReadOptionalASN1Boolean` (as fixed in /repo a2374cc): `child.ReadASN1Boolean(out) && child.Empty()` —
+    like the INTEGER / OCTET STRING variants, the explicit wrapper must hold exactly one BOOLEAN -/
 def readOptionalBool (dflt : Bool) (tag : UInt8) (s : Bytes) : Option (Bool × Bytes) :=
-  match readOptional tag s with
-  | some (false, _, r) => some (dflt, r)
-  | some (true, b, r) => (readBool b).map fun (v, _) => (v, r)
-  | none => none
-
-/-- what the C23 statement asks of ReadOptionalASN1Boolean (an EXPLICIT wrapper holds exactly one TLV):
-    like the INTEGER / OCTET STRING variants, the wrapper's contents must be consumed completely.
-    The driver answers with this one; the code as written is `readOptionalBool` (KNOWN-FINDING). -/
-def readOptionalBoolDER (dflt : Bool) (tag : UInt8) (s : Bytes) : Option (Bool × Bytes) :=
   readOptionalWith readBool dflt tag s
 
 /-- `ReadOptionalASN1OctetString`: (present, octets, rest) -/
@@ -320,25 +311,15 @@ def addBase128 (n : Int) : Bytes :=
   let n := n.toNat
   base128Digits (if n == 0 then 1 else base128Len 10 n) n
 
-/-- wrap to int64 -/
-def wrap64 (x : Int) : Int := (x + 2 ^ 63) % 2 ^ 64 - 2 ^ 63
-
-/-- `AddASN1ObjectIdentifier` (arcs are Go ints) -/
+/-- `AddASN1ObjectIdentifier` (arcs are Go ints; isValidOID as fixed in /repo 857ea63: `40*oid[0]+oid[1]` must
+    not overflow int64) -/
 def addOID (oid : List Int) : Option Bytes :=
   match oid with
   | a :: b :: rest =>
     if a > 2 || (a ≤ 1 && b ≥ 40) then none else
+    if a == 2 && b > 2 ^ 63 - 1 - 80 then none else
     if oid.any (· < 0) then none else
-    addASN1 6 (addBase128 (wrap64 (a * 40 + b)) ++ (rest.map addBase128).flatten)
+    addASN1 6 (addBase128 (a * 40 + b) ++ (rest.map addBase128).flatten)
   | _ => none
-
-
-/-- what the C23 statement asks of AddASN1ObjectIdentifier: `40*a + b` must not overflow int64 (the code as
-    written, `addOID`, wraps, `addBase128Int` of the negative result emits nothing, and `06 00` comes out
-    without an error).  The driver answers with this one (KNOWN-FINDING). -/
-def addOIDDER (oid : List Int) : Option Bytes :=
-  match oid with
-  | a :: b :: _ => if a * 40 + b ≥ 2 ^ 63 then none else addOID oid
-  | _ => addOID oid
 
 end XC.C23
